@@ -254,7 +254,8 @@ def phase_maxiter(ctx):
     position the slow phase has in the declaration order (no partly converged table)"""
     rng = ctx.rng
     desc = gen.gen_system(rng, phases=1.0, max_nodes=10, p_neg_src_rs=0.0, p_micro=0.0)
-    if rng.random() < 0.3:
+    odd = rng.random()
+    if odd < 0.2:
         gen.odd_phase(rng, desc)         # the exception contract does not depend on what a phase is called
     if rng.random() < 0.5 and len(desc.get("phases") or {}) >= 2:
         items = list(desc["phases"].items())
@@ -265,6 +266,10 @@ def phase_maxiter(ctx):
         ctx.stats["phase_maxiter:not_applicable"] += 1
         return
     m = rng.randint(min(its), max(its) - 1)
+    if 0.2 <= odd < 0.5:
+        # ... in particular not on what the phase that runs out of sweeps is called (format placeholders, per cent signs)
+        slow = list(desc["phases"])[its.index(max(its))]
+        gen.odd_phase(rng, desc, pool=["tx{burst}", "{}", "{0}", "a}", "{", "%s", "%(x)s", "100%"], which=slow)
     df2, err2, its2 = solve_observed(desc, {"maxiter": m})
     cls = sysdesc.exc_class(err2[1]) if err2 else "ok"
     ctx.stats["phase_maxiter:%s" % cls] += 1
@@ -293,6 +298,25 @@ def run(ctx):
         one(ctx, gen.gen_system(ctx.rng, heavy=True, max_nodes=10, p_neg_src_rs=0.0), {}, "heavy")
     for _ in range(n // 3):
         one(ctx, signed_phase_currents(ctx.rng), {}, "signed_phase_currents")
+    for _ in range(n // 3):
+        one(ctx, signed_mux_rs(ctx.rng), {}, "signed_mux_rs")
+
+
+def signed_mux_rs(rng):
+    """a PMux whose on-resistance is given per input, with a sign on some entries (a resistance is a magnitude wherever it is written):
+    the mux must not amplify, and an overloaded input must still be reported as unstable"""
+    for _ in range(6):
+        d = gen.gen_system(rng, phases=0.3, max_nodes=10, p_mux=3.0, n_sources=rng.choice([2, 2, 3]), p_neg_src_rs=0.0, p_micro=0.0,
+                           heavy=rng.random() < 0.3)
+        mux = [c for c in d["comps"] if c["kind"] == "pmux"]
+        if mux:
+            c = mux[0]
+            n = len(c["parents"])
+            base = c["args"].get("rs")
+            vals = base if isinstance(base, list) and len(base) == n else [gen.sd(rng, 1e-3, 0.5) for _ in range(n)]
+            c["args"]["rs"] = [(-abs(x) if rng.random() < 0.6 else abs(x)) for x in vals]
+            return d
+    return d
 
 
 def signed_phase_currents(rng):
